@@ -70,6 +70,28 @@ def float_region(d, region):
     return a
 
 
+SPECIAL_DRAWS = {"f32": [("inf", "0x7f80_0000u32"), ("neginf", "0xff80_0000u32"), ("nan", "0x7fc0_0000u32"), ("nan_ones", "0xffff_ffffu32")],
+                 "f64": [("inf", "0x7ff0_0000_0000_0000u64"), ("neginf", "0xfff0_0000_0000_0000u64"), ("nan", "0x7ff8_0000_0000_0000u64"), ("nan_ones", "0xffff_ffff_ffff_ffffu64")]}
+
+
+def float_special_draw_harness(d, hname, bits):
+    """first drawn float = a CONCRETE non-finite pattern (the deciding inputs for the NaN/inf re-draw logic), remaining bytes
+    symbolic; the generator's byte-mangling loop then runs on concrete bytes (it ends after 2 iterations), unwind 8"""
+    ty = d.ty
+    size = BITS[ty] // 8
+    b = [d.setup()]
+    for a in float_region(d, "benign"):
+        b.append("kani::assume(%s);" % a)
+    b += ["let first: [u8; %d] = (%s).to_le_bytes(); let rest: [u8; %d] = kani::any();" % (size, bits, size),
+          "let mut data = [0u8; %d]; let mut i = 0; while i < %d { data[i] = first[i]; data[%d + i] = rest[i]; i += 1; }" % (2 * size, size, size),
+          "let len: usize = kani::any(); kani::assume(len >= %d && len <= %d);" % (size, 2 * size),
+          "let mut u = Unstructured::new(&data[..len]);",
+          "let r = <N as Arbitrary>::arbitrary(&mut u);",
+          "kani::cover!(r.is_ok());",
+          "match r { Ok(v) => { let g = v.into_inner(); assert!(%s, \"arbitrary returned a value violating a validator\"); } Err(_) => {} }" % d.valid_expr("g")]
+    return "    #[kani::proof]\n    #[kani::unwind(%d)]\n    pub fn %s() {\n        %s\n    }\n" % (size + 6, hname, "\n        ".join(b))
+
+
 def float_harness(d, hname, region="benign", sabotage=False, first_draw_ok=True):
     ty = d.ty
     size = BITS[ty] // 8
@@ -190,6 +212,10 @@ def generate(tier, seed):
                 else:
                     hsrc = float_harness(d, hn, "benign")
                     plan.add(H(hn, kind, dict(d.describe(), region="benign: |bound| <= 16; first draw passes the NaN/inf re-draw condition")))
+                    if v:
+                        for (tag, bits) in (SPECIAL_DRAWS[ty] if (tier == "thorough" or ty == "f32") else SPECIAL_DRAWS[ty][:2]):
+                            hsrc += float_special_draw_harness(d, "%s_draw_%s" % (hn, tag), bits)
+                            plan.add(H("%s_draw_%s" % (hn, tag), kind, dict(d.describe(), first_draw=tag + " (concrete bit pattern)", region="benign bounds")))
                 if tier == "thorough" and ("finite" in v or bc) and not (d.lower() and d.upper()):
                     hsrc += float_harness(d, hn + "_mangle", "benign", first_draw_ok=False)
                     plan.add(H(hn + "_mangle", "best_effort", dict(d.describe(), region="benign; byte-mangling re-draw loop included (unwind 1002)")))
